@@ -9,8 +9,8 @@ W=$(mktemp -d /tmp/vsetup-XXXXXX); trap 'rm -rf "$W"' EXIT
 ./bin/instrument -repo /repo -out "$W" -rules r1,r2,r5,r6 -rt /verif/rt >/dev/null
 go build -tags verif -overlay "$W/overlay.json" -o "$W/vcheck" ./harness/cmd/vcheck
 "$W/vcheck" list >/dev/null
-if [ -d harness/cmd/vsched ]; then
+if true; then
   rm -rf "$W"/*; ./bin/instrument -repo /repo -out "$W" -rules r2,r3,r4 -rt /verif/rt >/dev/null
-  go build -tags verif -overlay "$W/overlay.json" -o "$W/vsched" ./harness/cmd/vsched
+  go build -tags verif -overlay "$W/overlay.json" -o "$W/vsched" ./harness/cmd/vcheck
 fi
 echo setup ok
